@@ -29,6 +29,16 @@ import vlib
 
 warnings.simplefilter("ignore")
 
+ROLES = ["data0", "data1", "points", "probs", "sample", "limits", "deltas", "semantics", "fit_desc",
+         "edge_points", "edge_probs", "edge_vec"]
+NROLES = len(ROLES)
+
+
+def arr_no(k, role):
+    """number of the caller's object `role` of model k (World lays them out in this order)"""
+    return NROLES * k + ROLES.index(role)
+
+
 GETTERS = ["get_DNVGL_Hs_Tz", "get_DNVGL_Hs_U", "get_OMAE2020_Hs_Tz", "get_OMAE2020_V_Hs",
            "get_Windmeier_EW_Hs_S", "get_Nonzero_EW_Hs_S"]
 DATA_KIND = {"get_DNVGL_Hs_Tz": "hs_tz", "get_DNVGL_Hs_U": "hs_u", "get_OMAE2020_Hs_Tz": "hs_tz",
@@ -337,6 +347,7 @@ def getter_graph_check(ctx):
 # ====================================================================== operations
 # python entry -> (Coq entry class, needs)   The Coq class fixes the footprint.
 ENTRY_CLASS = {
+    "marginal_cdf_dep": "MarginalCdf", "dist0_pdf": "DistPdf", "dist0_cdf": "DistCdf", "dist0_icdf": "DistIcdf",
     "pdf": "Pdf", "cdf": "Cdf", "marginal_pdf": "MarginalPdf", "marginal_cdf0": "MarginalCdf", "marginal_icdf0": "MarginalPdf",
     "marginal_icdf_mc": "MarginalIcdf", "conditional_cdf": "ConditionalCdf", "conditional_icdf": "ConditionalIcdf",
     "draw_sample_seeded": "DrawSampleSeeded", "draw_sample": "DrawSample", "empirical_cdf_cached": "EmpiricalCdf",
@@ -345,11 +356,13 @@ ENTRY_CLASS = {
     "direct_sampling": "DirectSampling", "and": "AndC", "or": "OrC", "plot_marginal_quantiles": "PlotMarginalQuantiles",
     "plot_dependence_functions": "PlotDependenceFunctions", "plot_histograms": "PlotHistograms", "plot_isodensity": "PlotIsodensity",
 }
-GHM2 = ["draw_sample_seeded", "dist_sample_seeded", "pdf", "marginal_pdf", "marginal_cdf0", "marginal_icdf0", "marginal_icdf_mc", "conditional_cdf", "conditional_icdf",
+EDGE_OK = {"pdf", "marginal_pdf", "marginal_cdf0", "marginal_icdf0", "conditional_cdf", "conditional_icdf", "dist_pdf", "dist_cdf",
+           "dist_icdf", "dist0_pdf", "dist0_cdf", "dist0_icdf", "empirical_cdf_sample"}
+GHM2 = ["dist0_pdf", "dist0_cdf", "dist0_icdf", "draw_sample_seeded", "dist_sample_seeded", "pdf", "marginal_pdf", "marginal_cdf0", "marginal_icdf0", "marginal_icdf_mc", "conditional_cdf", "conditional_icdf",
         "draw_sample_seeded", "draw_sample", "dist_pdf", "dist_cdf", "dist_icdf", "dist_sample_seeded", "iform", "isorm", "hdc",
         "hdc_default", "direct_sampling", "and", "or", "plot_marginal_quantiles", "plot_dependence_functions", "plot_histograms",
         "plot_isodensity"]
-GHM3 = ["draw_sample_seeded", "pdf", "marginal_cdf0", "draw_sample_seeded", "draw_sample", "dist_pdf", "dist_cdf", "dist_icdf", "dist_sample_seeded",
+GHM3 = ["dist0_pdf", "dist0_cdf", "dist0_icdf", "draw_sample_seeded", "pdf", "marginal_cdf0", "draw_sample_seeded", "draw_sample", "dist_pdf", "dist_cdf", "dist_icdf", "dist_sample_seeded",
         "iform", "isorm", "hdc", "plot_dependence_functions"]
 TRANS = ["pdf", "draw_sample", "empirical_cdf_sample", "direct_sampling", "and", "or"]
 CONTOURS = {"iform", "isorm", "hdc", "hdc_default", "direct_sampling", "and", "or"}
@@ -388,7 +401,13 @@ class World:
                             ("deltas", list(DELTAS[r["kind"]])),
                             ("semantics", {"names": ["Var %d" % i for i in range(r["n_dim"])], "symbols": ["X_%d" % i for i in range(r["n_dim"])],
                                            "units": ["u%d" % i for i in range(r["n_dim"])]}),
-                            ("fit_desc", r["fit_desc"])):
+                            ("fit_desc", r["fit_desc"]),
+                            # float ndarrays with negative, zero and positive entries / probabilities 0 and 1: in-place
+                            # "sanitising" of an argument is the typical way a caller's array gets written
+                            ("edge_points", np.vstack([np.full(r["n_dim"], -0.5), np.zeros(r["n_dim"]), d0[6], d0[7]]).astype(float)),
+                            ("edge_probs", np.array([0.0, 0.5, 1.0, 0.25])),
+                            ("edge_vec", np.array([-0.5, 0.0, float(d0[6, -1])]))):
+                assert ROLES[len(r["arr"])] == role
                 r["arr"][role] = len(self.arrays)
                 self.arrays.append(a)
                 self.arr_role.append((k, role))
@@ -505,6 +524,8 @@ def execute(world, op, results):
     r = world.recs[op["k"]]
     m, inner, A = r["model"], r["inner"], r["arr"]
     X, P, S = world.arrays[A["points"]], world.arrays[A["probs"]], world.arrays[A["sample"]]
+    if op.get("edge"):
+        X, P = world.arrays[A["edge_points"]], world.arrays[A["edge_probs"]]
     sem = world.arrays[A["semantics"]]
     e = op["entry"]
     last = r["n_dim"] - 1
@@ -514,7 +535,15 @@ def execute(world, op, results):
     if e == "cdf":
         return m.cdf(X[:1])
     if e == "marginal_pdf":
-        return m.marginal_pdf(X[:2, 1], 1)
+        return m.marginal_pdf(X[:, 1] if op.get("edge") else X[:2, 1], 1)
+    if e == "marginal_cdf_dep":         # dependent dimension: nquad per point, so a short vector
+        return m.marginal_cdf(world.arrays[A["edge_vec"]], 1)
+    if e == "dist0_pdf":
+        return inner.distributions[0].pdf(X[:, 0])
+    if e == "dist0_cdf":
+        return inner.distributions[0].cdf(X[:, 0])
+    if e == "dist0_icdf":
+        return inner.distributions[0].icdf(P)
     if e == "marginal_cdf0":
         return m.marginal_cdf(X[:, 0], 0)
     if e == "marginal_icdf0":
@@ -574,10 +603,9 @@ def gen_history(rng, names, quick, maxlen=6):
     ops = []
     L = rng.randrange(3, maxlen + 1)
     nid = 0
-    roles = ["data0", "data1", "points", "probs", "sample", "limits", "deltas", "semantics", "fit_desc"]
 
     def arr(k, role):
-        return 9 * k + roles.index(role)
+        return arr_no(k, role)
     while len(ops) < L:
         u = rng.random()
         dets = [o for o in ops if o["op"] == "eval" and o["det"]]
@@ -605,6 +633,8 @@ def gen_history(rng, names, quick, maxlen=6):
                 e = {"2": "cdf", "3": "pdf", "T": "empirical_cdf_cached"}[recs_kind[k]]
             o = {"op": "eval", "k": k, "entry": e, "dim2": recs_kind[k] != "3",
                  "alpha": rng.choice([0.1, 0.05, 0.02])}
+            if e in EDGE_OK and rng.random() < 0.4:
+                o["edge"] = True                   # arguments with negative / zero / boundary entries
             o["det"] = ENTRY_CLASS[e] not in ("MarginalIcdf", "DrawSample", "EmpiricalCdf", "HDCDefaultGrid", "AndC", "OrC",
                                               "PlotMarginalQuantiles")
         o = dict(o)
@@ -635,6 +665,14 @@ def op_args(world, op):
         use = {"limits", "deltas"}
     if e == "plot_histograms":
         use = {world.recs[op["k"]]["fitted_with"]}
+    if e in ("dist0_pdf", "dist0_cdf"):
+        use = {"points"}
+    if e == "dist0_icdf":
+        use = {"probs"}
+    if op.get("edge"):
+        use = {{"points": "edge_points", "probs": "edge_probs"}.get(u, u) for u in use}
+    if e == "marginal_cdf_dep":
+        use = {"edge_vec"}
     if e.startswith("plot"):
         use = use | {"semantics"}
     return sorted(A[u] for u in use)
@@ -650,7 +688,7 @@ def coq_op(world, op, pos_of):
 
 
 def same_op(a, b):
-    keys = ("op", "k", "entry", "alpha", "c", "post", "swap", "steps", "data", "fd")
+    keys = ("op", "k", "entry", "alpha", "c", "post", "swap", "steps", "data", "fd", "edge")
     return all(a.get(x) == b.get(x) for x in keys)
 
 
@@ -719,7 +757,8 @@ def classify(names, ops, obs, wsets):
             where = "%s(%s) on model %d (%s)" % (op["op"], op.get("entry") or op.get("post") or "", op["k"], names[op["k"]])
             if isinstance(cell, tuple) and cell[0] == "Arr":
                 viol.append(({"clause": "input-array", "site": op.get("entry") or op.get("post") or "fit"},
-                             "%s changed the caller's object %s" % (where, paths[0])))
+                             "%s changed the caller's object %s (the `%s` argument prepared for model %d)"
+                             % (where, paths[0], ROLES[cell[1] % NROLES], cell[1] // NROLES)))
             elif isinstance(cell, tuple) and cell[0] == "Obj":
                 viol.append(({"clause": "contour-mutated", "site": op.get("entry") or op.get("post") or "fit"},
                              "%s changed the contour object built at step %d: %s" % (where, cell[1], paths[0])))
@@ -817,18 +856,27 @@ def run(ctx):
     for other in ("custom3d", rng.choice(GETTERS)):
         k3 = {"op": "eval", "k": 0, "dim2": False, "det": True, "alpha": 0.05}
         mand = [dict(k3, entry="iform"), dict(k3, entry="isorm"),
-                {"op": "fit", "k": 1, "data": 9 + 1, "fd": None}, dict(k3, entry="pdf"),
+                {"op": "fit", "k": 1, "data": arr_no(1, "data1"), "fd": None}, dict(k3, entry="pdf"),
                 dict(k3, entry="iform", repeat_of=0), dict(k3, entry="isorm", repeat_of=1)]
         for i, o in enumerate(mand):
             o["id"] = i
         hist.insert(0, {"models": ["custom3d", other], "ops": mand, "seed": rng.randrange(1 << 20)})
+    # every run: marginal_cdf AND marginal_pdf of a DEPENDENT dimension, the joint pdf and the distribution-level
+    # pdf/cdf/icdf forwarders on float ndarrays holding negative, zero and positive entries (probabilities 0 and 1)
+    g2 = rng.choice(["get_DNVGL_Hs_Tz", "get_DNVGL_Hs_U", "get_OMAE2020_Hs_Tz", "get_OMAE2020_V_Hs"])
+    e2 = {"op": "eval", "k": 0, "dim2": True, "det": True, "alpha": 0.05, "edge": True}
+    mand = [dict(e2, entry="marginal_cdf_dep"), dict(e2, entry="marginal_pdf"), dict(e2, entry="pdf"),
+            dict(e2, entry="dist_cdf"), dict(e2, entry="dist_icdf"), dict(e2, entry="marginal_cdf_dep", repeat_of=0)]
+    for i, o in enumerate(mand):
+        o["id"] = i
+    hist.insert(0, {"models": [g2, rng.choice(GETTERS)], "ops": mand, "seed": rng.randrange(1 << 20)})
     if not ctx.quick():
         # all interleavings of a 4-operation alphabet on two models of the same getter
         import itertools
         for g in ("get_OMAE2020_V_Hs", "get_DNVGL_Hs_Tz"):
             alpha = [{"op": "eval", "k": 0, "entry": "pdf", "det": True, "dim2": True},
                      {"op": "eval", "k": 0, "entry": "direct_sampling", "det": True, "dim2": True, "alpha": 0.05},
-                     {"op": "fit", "k": 1, "data": 9 + 1, "fd": None}, {"op": "fit", "k": 0, "data": 1, "fd": None}]
+                     {"op": "fit", "k": 1, "data": arr_no(1, "data1"), "fd": None}, {"op": "fit", "k": 0, "data": arr_no(0, "data1"), "fd": None}]
             for seq in itertools.product(range(4), repeat=4):
                 ops = []
                 for i, a in enumerate(seq):
